@@ -332,6 +332,12 @@ def run(fx, tier):
         raise AnalysisBroken('packet_id_allocator not instantiated')
     if n_alloc == 0:
         raise AnalysisBroken('no allocate_pid call site found in perform()')
+    # an identifier is released by the exchange's own acknowledgement: a stale parked reply with the same (code, id) must
+    # not end a later exchange early (shared with C01)
+    from c01 import fast_reply_rules
+    if 'R-DOM' not in v.rules:
+        v.rule('R-DOM', 'parked acknowledgements are purged before every stream write (and only then), stored only by dispatch(), used once')
+    fast_reply_rules(fx, v, 'C08')
     v.expect_min('R-DOM', 9, 'allocate sites × paths')
     v.expect_min('R-PAIR', 60, 'paths of request-operation entry points')
     v.expect_min('R-FLOW', 40, 'free/wait/encode sites on paths')
